@@ -114,6 +114,8 @@ def _meta(rng, o, callees, vars_):
     else:
         gt = goal_term
     r = rng.random()
+    if pre is not None and g[2]:
+        r = 0.6 + 0.4 * r if rng.random() < 0.5 else r      # more call/N with extra arguments on a goal held in a variable
     if r < 0.3:
         m = ['call', 'once', [gt]]
     elif r < 0.6:
@@ -128,6 +130,10 @@ def _meta(rng, o, callees, vars_):
         m = ['call', 'call', [part] + g[2][-k:]]
     else:
         m = ['call', 'call', [gt]]
+    if pre is not None and rng.random() < 0.5:
+        # a goal with several solutions between the binding of the goal variable and its use: the
+        # meta-call is re-entered on backtracking with the same goal term
+        return ['and', pre, ['and', _goal(rng, o, callees, vars_), m]]
     return ['and', pre, m] if pre is not None else m
 
 def rand_body(rng, o, callees, vars_, size, opaque=False, top=True):
